@@ -177,7 +177,7 @@ def canon_obs(scen, obs):
     return out
 
 
-def validate(rep, native, scens, driver_setup=None, symrun=None, natrun=None):
+def validate(rep, native, scens, driver_setup=None, symrun=None, natrun=None, vcanon=None):
     """same concrete scenarios through executor and native build; any difference indicts the engine"""
     nat = [natrun(native, s) for s in scens] if natrun else native.run(scens)
 
@@ -199,7 +199,8 @@ def validate(rep, native, scens, driver_setup=None, symrun=None, natrun=None):
             h(ex)
             seen.append(json_norm(res['obs']))
         explore(ex, h2, max_paths=400)
-        ok = any(obs_equal(canon_obs(scen, sym), canon_obs(scen, nobs)) for sym in seen)
+        cz = (lambda o: vcanon(scen, o)) if vcanon else (lambda o: o)
+        ok = any(obs_equal(canon_obs(scen, cz(sym)), canon_obs(scen, cz(nobs))) for sym in seen)
         return {'ok': ok, 'scen': scen, 'sym': seen[0], 'nat': nobs, 'paths_tried': len(seen)}
     for r in parallel(list(zip(scens, nat)), vworker):
         if 'inconclusive' in r:
@@ -212,7 +213,7 @@ def validate(rep, native, scens, driver_setup=None, symrun=None, natrun=None):
 
 def scenario_check(prop, tier, seed, items, evaluate, sig_of, bounds, assumptions, rule, expected_cells=None,
                    n_validate=None, driver_setup=None, hooks=False, chunksize=8, symrun=None, natrun=None, pre_finish=None,
-                   stream=None, escalate=None):
+                   stream=None, escalate=None, vcanon=None):
     rep = Report(prop, tier, seed)
     rep.bounds = bounds
     rnd = random.Random(seed)
@@ -228,7 +229,7 @@ def scenario_check(prop, tier, seed, items, evaluate, sig_of, bounds, assumption
         if str(c) not in seen_cells and len(seen_cells) < nv + 60:
             seen_cells.add(str(c))
             picks.append((c, sc))
-    validate(rep, native, [random_concrete(s, rnd) for _, s in picks], driver_setup, symrun, natrun)
+    validate(rep, native, [random_concrete(s, rnd) for _, s in picks], driver_setup, symrun, natrun, vcanon)
     for r in parallel(items, make_worker(prop, evaluate, driver_setup, symrun), chunksize=chunksize):
         rep.absorb(r)
     if stream is not None:
